@@ -41,15 +41,15 @@ type Intr struct {
 
 // Result is the model's (or the implementation's) canonical outcome.
 type Result struct {
-	Evaluated [6][]int          `json:"evaluated"` // top-level rule ids evaluated, per phase
-	Fired     []Fired           `json:"fired"`
-	Intr      *Intr             `json:"intr,omitempty"`
-	IntrPhase int               `json:"intr_phase,omitempty"`
-	Would     *Intr             `json:"would,omitempty"` // DetectionOnly: remembered first would-be interruption
-	TX        map[string]string `json:"tx,omitempty"`
-	HS        int               `json:"hs"`
+	Evaluated [6][]int            `json:"evaluated"` // top-level rule ids evaluated, per phase
+	Fired     []Fired             `json:"fired"`
+	Intr      *Intr               `json:"intr,omitempty"`
+	IntrPhase int                 `json:"intr_phase,omitempty"`
+	Would     *Intr               `json:"would,omitempty"` // DetectionOnly: remembered first would-be interruption
+	TX        map[string]string   `json:"tx,omitempty"`
+	HS        int                 `json:"hs"`
 	Seen      map[string][]string `json:"seen,omitempty"` // verifrec tag -> values in order
-	Ambiguous string            `json:"ambiguous,omitempty"`
+	Ambiguous string              `json:"ambiguous,omitempty"`
 	// AmbReasons lists every distinct ambiguity reason met (Ambiguous is the first).
 	AmbReasons []string `json:"amb_reasons,omitempty"`
 	// TXOrderDep lists TX keys whose final value depends on the visiting order of a multi-valued collection.
